@@ -401,4 +401,33 @@ theorem scan_process (c : Cfg) (hg : c.Good) (ht : c.TmapGood) (w : WorldE) (hw 
       simp only [hcongr es, h1]
       rfl
 
+/-! ### the driver's executable tests are the propositions used above -/
+
+theorem fdsInspectable_iff (fds : List (Nat × TargetE)) : fdsInspectable fds = true ↔ FdsInspectable fds := by
+  simp only [fdsInspectable, FdsInspectable, List.all_eq_true]
+  constructor
+  · intro h x hx e he
+    have := h x hx
+    rw [he] at this
+    exact this
+  · intro h x hx
+    cases ht : x.2 with
+    | sock i => rfl
+    | other b => rfl
+    | fail e => exact h x hx e ht
+
+theorem inspectable_iff (w : WorldE) : w.inspectable = true ↔ w.Inspectable := by
+  simp only [WorldE.inspectable, WorldE.Inspectable, List.all_eq_true]
+  constructor
+  · intro h p hp
+    have := h p hp
+    cases hl : p.2 with
+    | error e => rw [hl] at this; exact this
+    | ok fds => rw [hl] at this; exact (fdsInspectable_iff fds).mp this
+  · intro h p hp
+    have := h p hp
+    cases hl : p.2 with
+    | error e => rw [hl] at this; exact this
+    | ok fds => rw [hl] at this; exact (fdsInspectable_iff fds).mpr this
+
 end Psutil.C11
